@@ -1,6 +1,6 @@
 SPECIFICATION Spec
 CONSTANTS
-  AllowDev = FALSE
+  AllowDev = TRUE
   Bang <- HdrBang
   Ints <- HdrInts
   Durs <- HdrDurs
